@@ -141,6 +141,14 @@ pub trait Check: Sync {
     fn extra_coverage(&self, _agg: &Aggregate) -> Value {
         Value::Null
     }
+    /// check-specific shrink steps on the `extra` payload
+    fn extra_shrinks(&self, _case: &Case) -> Vec<Case> {
+        vec![]
+    }
+    /// watchdog limit for one generated case
+    fn case_timeout_s(&self) -> u64 {
+        60
+    }
     /// whether a stuck case is a violation of this property (C07, C14) or just inconclusive
     fn hang_is_violation(&self) -> bool {
         false
@@ -289,7 +297,9 @@ pub fn shrink_case(check: &dyn Check, case: Case, failure: Failure) -> (Case, Fa
     let mut progress = true;
     while progress && Instant::now() < deadline {
         progress = false;
-        for cand in crate::shrink::candidates(&best) {
+        let mut cands = check.extra_shrinks(&best);
+        cands.extend(crate::shrink::candidates(&best));
+        for cand in cands {
             if Instant::now() >= deadline {
                 break;
             }
@@ -354,13 +364,14 @@ pub fn run_generated(check: &dyn Check, cfg: &RunConfig, agg: &mut Aggregate) ->
         let hang_ref = &hang;
         let finished_ref = &finished;
         let stop2 = stop.clone();
+        let limit_s = check.case_timeout_s();
         s.spawn(move || {
             while !finished_ref.load(Ordering::Relaxed) {
                 std::thread::sleep(std::time::Duration::from_millis(250));
                 for slot in &w2.slots {
                     let g = slot.lock().unwrap();
                     if let Some((t, bytes)) = &*g {
-                        if t.elapsed().as_secs() >= 60 {
+                        if t.elapsed().as_secs() >= limit_s {
                             *hang_ref.lock().unwrap() = Some(bytes.clone());
                             stop2.store(true, Ordering::Relaxed);
                         }
@@ -457,7 +468,7 @@ pub fn run_generated(check: &dyn Check, cfg: &RunConfig, agg: &mut Aggregate) ->
             // report and exit the process: scoped threads cannot be abandoned
             let mut d = Dec::new(&bytes);
             let case = check.generate(&mut d, cfg.thorough);
-            let f = Failure::new("hang", "a case did not finish within 60 s");
+            let f = Failure::new("hang", "a case did not finish within the watchdog limit");
             if check.hang_is_violation() {
                 let path = write_replay(check.id(), "proptest", cfg.seed, tier_name(cfg.thorough), &case, &f, Some(&bytes));
                 println!("VIOLATION property={} replay={}", check.id(), path.display());
@@ -568,7 +579,10 @@ pub fn write_evidence(
         "wall_s": wall_s,
         "violations": violations,
     });
-    let dir = Path::new(VERIF_DIR).join("evidence");
+    let dir = match std::env::var("VERIF_EVIDENCE_DIR") {
+        Ok(d) => PathBuf::from(d),
+        Err(_) => Path::new(VERIF_DIR).join("evidence"),
+    };
     let _ = std::fs::create_dir_all(&dir);
     let path = dir.join(format!("{}.json", check.id()));
     if let Err(e) = std::fs::write(&path, serde_json::to_string_pretty(&v).unwrap()) {
